@@ -1,12 +1,20 @@
 #!/bin/bash
-# Builds everything the checks need from files on disk only, and pre-warms the Go build cache.
-set -e
+# Builds everything the checks need from files on disk only (offline) and pre-warms the Go build
+# cache: every registered harness is built once exactly the way ./check builds it (plain, -race
+# and engine-E1 overlay variants), so the first real check run only relinks.
+set -u
 cd /verif
 export GOFLAGS=-mod=mod GOPROXY=off GOSUMDB=off GOTOOLCHAIN=local GOCACHE=/verif/.cache/go-build
 mkdir -p .cache/go-build .work bin evidence replays
-rm -rf .work/*
-go build -tags 'verif verifcard' ./vk/... ./spec/... ./harness/... 2>&1 | tail -20
-# pre-build the -race runtime (used by the free-running race pass) and the E1 overlay build
-if [ -d mc/rewrite ]; then go build -o bin/rewrite ./mc/rewrite; fi
-for d in harness/*/race; do [ -d "$d" ] && go build -race -tags verif -o /dev/null "./$d"; done
-echo setup done
+rm -rf .work/* 2>/dev/null
+chmod +x check tools/*.sh tools/*.py 2>/dev/null
+fail=0
+for id in $(python3 -c "import json; print(' '.join(c['id'] for c in json.load(open('/verif/tools/checks.json'))['checks']))"); do
+  if VERIF_BUILD_ONLY=1 ./check "$id" > .work/setup.$id.log 2>&1; then
+    echo "built $id"
+  else
+    echo "FAILED to build $id:"; cat .work/setup.$id.log; fail=1
+  fi
+done
+rm -f .work/setup.*.log
+[ $fail = 0 ] && echo "setup done" || { echo "setup incomplete"; exit 1; }
